@@ -12,36 +12,46 @@ Open Scope Z_scope.
 (* Classic XOR chunk: any sample sequence up to the chunk's capacity, appended to a fresh chunk,
    is returned by iterating the chunk's bytes exactly: same length, same timestamps, same value
    bits, no iterator error (AtST is 0 for this encoding: [st0]). *)
-Theorem C10_xor_roundtrip : forall ss,
+Theorem C10_xor_roundtrip : forall k ss,
   Forall wf_sample ss -> Z.of_nat (length ss) <= 65535 ->
-  exists num bs, xor_encode [(ReObj, ss)] = EOk num [] bs /\
+  exists num bs, xor_encode [(k, ss)] = EOk num [] bs /\
                  xor_decode (chunk_bytes num [] bs) = DOk (map st0 ss) false.
 Proof. exact xor_roundtrip. Qed.
 
 (* ... also when appending is interrupted any number of times and resumed through
-   XORChunk.Appender() on the same chunk object (the appender state is rebuilt by iterating
-   the existing bytes; a rebuilt appender has window 0/0 where a fresh one has 0xff). *)
-Theorem C10_xor_resume_same_object : forall segs,
-  all_obj segs -> Forall wf_sample (flat_map snd segs) ->
+   XORChunk.Appender(), on the same chunk object or on a chunk rebuilt from its bytes (the
+   segments carry either kind).  The appender state is rebuilt by iterating the existing bytes
+   (a rebuilt appender has window 0/0 where a fresh one has 0xff) and - since
+   "fix: chunkenc: XORChunk.Appender does not restore the write position ..." - the write
+   position is restored from the iterator's reader. *)
+Theorem C10_xor_resume : forall segs,
+  Forall wf_sample (flat_map snd segs) ->
   Z.of_nat (length (flat_map snd segs)) <= 65535 ->
   exists num bs, xor_encode segs = EOk num [] bs /\
                  xor_decode (chunk_bytes num [] bs) = DOk (map st0 (flat_map snd segs)) false.
 Proof. exact xor_history_roundtrip. Qed.
 
-(* Full statement of the resume clause for XOR ("also when appending resumes on a chunk
-   reloaded from its bytes"): the same as C10_xor_resume_same_object without [all_obj].
-   It is FALSE of the faithful model and of the code: XORChunk.Appender() does not restore the
-   write position (bstream.count) of a chunk rebuilt by FromData, so unless the bit stream
-   happened to end on a byte boundary the next sample is written after zero padding which
-   the iterator decodes as sample data. *)
-Theorem C10_xor_resume_from_bytes_refuted :
+(* The code before that fix (model: xor_encode_old = xor_run_gen false) violated the statement:
+   Appender() did not restore bstream.count of a chunk rebuilt by FromData, so unless the bit
+   stream happened to end on a byte boundary the next sample was written after zero padding,
+   which the iterator decodes as sample data.  (1000,1.5) (2000,1.5), reload, (3007,2.5) read
+   back as ... (3000,1.5). *)
+Theorem C10_xor_resume_from_bytes_old_refuted :
   exists segs num bs,
     Forall wf_sample (flat_map snd segs) /\ Z.of_nat (length (flat_map snd segs)) <= 65535 /\
-    xor_encode segs = EOk num [] bs /\
+    xor_encode_old segs = EOk num [] bs /\
     xor_decode (chunk_bytes num [] bs) =
       DOk [mkS 0 1000 4609434218613702656; mkS 0 2000 4609434218613702656; mkS 0 3000 4609434218613702656] false /\
     xor_decode (chunk_bytes num [] bs) <> DOk (map st0 (flat_map snd segs)) false.
-Proof. exact xor_reload_refuted. Qed.
+Proof. exact xor_reload_old_refuted. Qed.
+
+(* the same history on the fixed code *)
+Example C10_xor_resume_from_bytes_fixed :
+  match xor_encode refute_segs with
+  | EOk num _ bs => xor_decode (chunk_bytes num [] bs) = DOk (map st0 (flat_map snd refute_segs)) false
+  | _ => False
+  end.
+Proof. vm_compute. reflexivity. Qed.
 
 (* One Append against one Next, from any related appender/iterator pair (the simulation step):
    the iterator consumes exactly the emitted bits, whatever follows them, and returns the
@@ -71,11 +81,11 @@ Proof. exact xor_value_rt. Qed.
 Theorem C10_xor_capacity : forall a t v, xor_append 65535 a t v = None.
 Proof. exact xor_capacity. Qed.
 
-(* Non-vacuity: a history with two segments, negative / extreme timestamps (deltas that wrap
+(* Non-vacuity: a history with two segments (the second after a reload from bytes), negative / extreme timestamps (deltas that wrap
    int64), a stale-NaN and an all-ones value meets the hypotheses, and its encoding is what
    the theorem says. *)
 Example C10_xor_nonvacuous :
-  all_obj example_segs /\ Forall wf_sample (flat_map snd example_segs) /\
+  Forall wf_sample (flat_map snd example_segs) /\
   Z.of_nat (length (flat_map snd example_segs)) <= 65535 /\
   match xor_encode example_segs with
   | EOk num _ bs => num = 5 /\ (length bs = 573)%nat /\
@@ -151,7 +161,7 @@ Proof. split; [exact HdrInv_init|]. apply (Inv2_init x2app_init). cbn. lia. Qed.
    moves to the first sample ahead with timestamp >= t, else reports ValNone standing on the
    last sample.  The iterator over the encoded bytes follows it for every script. *)
 Theorem C10_xor_seek : forall segs acts,
-  all_obj segs -> Forall wf_sample (flat_map snd segs) ->
+  Forall wf_sample (flat_map snd segs) ->
   Z.of_nat (length (flat_map snd segs)) <= 65535 ->
   exists num bs, xor_encode segs = EOk num [] bs /\
     xor_run_script (chunk_bytes num [] bs) acts = Some (spec_script None (map st0 (flat_map snd segs)) acts).
